@@ -19,7 +19,7 @@ class Shape(Universe):
 
     def setup(self):
         items = ITEMS[:self.nitems]
-        s = [CifNew(0), BlkCreate(0, 'b', 'H0'), LoopCreate('H0', '' if self.scalar else 'x', tuple(items), 'L0'),
+        s = [CifNew(0), BlkCreate(0, 'b', 'H0'), LoopCreate('H0', '' if self.scalar else ('x' if self.nitems != 2 else None), tuple(items), 'L0'),     # shapes with 2 items: a loop without category
              LoopCreate('H0', None, ('_zz',), 'L2'), LoopGetItem('H0', '_a', 'L1'),
              # a second container whose loop numbering collides differently: its loop 0 holds _zz, its loop 1 the items
              FrmCreate('H0', 's', 'H1'), LoopCreate('H1', None, ('_zz',), 'L3'), LoopCreate('H1', 'x', tuple(items), 'L4'),
